@@ -109,6 +109,7 @@ func render2(a, b int) string { return fmt.Sprintf("a%d b%d", a, b) }
 
 type world struct {
 	inst          *graph.Instance
+	v0            uint32 // model version right after construction
 	aID, bID, cID string
 	// server mode: the real HTTP endpoints (nil when the clients call the Instance directly)
 	paramH, prodH http.Handler
@@ -135,7 +136,7 @@ func build(via string) world {
 		inst.AddProducer("p1", p1)
 		inst.AddProducer("p2", p2)
 		inst.AddProducer("p3", p3)
-		return world{inst: inst, aID: inst.NodeId(a), bID: inst.NodeId(b), cID: inst.NodeId(cp)}
+		return world{inst: inst, v0: inst.ModelVersion(), aID: inst.NodeId(a), bID: inst.NodeId(b), cID: inst.NodeId(cp)}
 	}
 	app := &generator.App{Name: "verif", Files: map[string]nodes.NodeOutput[artifact.Artifact]{"p1": p1, "p2": p2, "p3": p3}}
 	savePath := ""
@@ -143,7 +144,7 @@ func build(via string) world {
 		savePath = autosavePath()
 	}
 	inst, ph, prh := generator.VerifEndpoints(app, savePath)
-	return world{inst: inst, aID: inst.NodeId(a), bID: inst.NodeId(b), cID: inst.NodeId(cp), paramH: ph, prodH: prh}
+	return world{inst: inst, v0: inst.ModelVersion(), aID: inst.NodeId(a), bID: inst.NodeId(b), cID: inst.NodeId(cp), paramH: ph, prodH: prh}
 }
 
 var autosaveFile string
@@ -175,7 +176,7 @@ var sliceAlphabet = []string{"Uc1", "A3", "Uc2", "Rc"}
 
 type opIn struct{ code string }
 
-type mstate struct{ a, b, c int }
+type mstate struct{ a, b, c, v int } // v: number of completed updates = the model version
 
 var model = porcupine.Model{
 	Init: func() interface{} { return mstate{} },
@@ -193,7 +194,11 @@ var model = porcupine.Model{
 			case 'c':
 				s.c = v
 			}
+			s.v++
 			return output.(string) == "ok", s
+		case 'V':
+			// the model version clients poll (/started, the websocket hub) counts the updates applied so far
+			return output.(string) == fmt.Sprint(s.v), s
 		case 'R':
 			want := fmt.Sprint(s.a)
 			switch code[1] {
@@ -225,6 +230,8 @@ func perform(w world, code string) string {
 		return performHTTP(w, code)
 	}
 	switch code[0] {
+	case 'V':
+		return fmt.Sprint(w.inst.ModelVersion() - w.v0)
 	case 'U':
 		if _, err := w.inst.UpdateParameter(w.paramID(code), message(code)); err != nil {
 			return "error: " + err.Error()
@@ -269,6 +276,9 @@ func message(code string) []byte {
 }
 
 func performHTTP(w world, code string) string {
+	if code[0] == 'V' {
+		return fmt.Sprint(w.inst.ModelVersion() - w.v0)
+	}
 	rec := httptest.NewRecorder()
 	id := ""
 	if code[0] != 'A' {
@@ -396,6 +406,9 @@ func firstKinds(p Program) string {
 	if has['A'] {
 		k = append(k, "Artifact")
 	}
+	if has['V'] {
+		k = append(k, "ModelVersion")
+	}
 	return strings.Join(k, "+")
 }
 
@@ -471,6 +484,7 @@ func run(c *core.Ctx) {
 		{"instance: 2 clients x <=2 ops, 8-op alphabet", "instance", alphabet, 2, 2},
 		{"instance: 3 clients x 1 op, 8-op alphabet", "instance", alphabet, 3, 1},
 		{"instance: slice-typed parameter, 2 clients x <=2 ops", "instance", sliceAlphabet, 2, 2},
+		{"instance: model version polled, 2 clients x <=2 ops", "instance", []string{"Ua1", "V", "A1", "Ub1"}, 2, 2},
 		{"server: 2 clients x <=2 ops, 5-op alphabet", "server", alphabet[:5], 2, 2},
 		{"server: slice-typed parameter, 2 clients x <=2 ops", "server", sliceAlphabet, 2, 2},
 		{"server+autosave: 2 clients x <=2 ops, 4-op alphabet", "server+autosave", alphabet[:4], 2, 2},
